@@ -477,7 +477,7 @@ def step (st : DState) (line : String) : DState × String :=
     let alls := (List.range 6).map fun c => match (st.ss.step ssCfg (.getAll c)).2 with
       | .insts l => s!"{c}:" ++ "+".intercalate ((l.mergeSort (· ≤ ·)).map toString)
       | _ => s!"{c}:?"
-    let chks := (List.range 6).flatMap fun c => (List.range 13).filterMap fun a =>
+    let chks := (List.range 6).flatMap fun c => (List.range 15).filterMap fun a =>
       match (st.ss.step ssCfg (.check c a)).2 with
       | .inst i => some s!"{c}/{a}:{i}"
       | _ => none
